@@ -480,12 +480,21 @@ static int parse_binding_parameter(int vp, int nbth, char * binding) {
         /* provide a single core per thread (round-robin) */
         for( t = 0; t < nbth; t += nbht ) {
             core = hwloc_bitmap_next(binding_mask, prev);
-            if( core == -1 || core > nb_real_cores ) {
+            if( core == -1 || core >= nb_real_cores ) {
                 prev = -1;
                 core = hwloc_bitmap_next(binding_mask, prev);
                 parsec_warning("Several thread of the VP number %i will be bound on the same core", vp);
             }
             assert(core != -1);
+            if( core >= nb_real_cores ) {
+                parsec_warning("binding mask of the VP number %i does not name any available core: threads are not bound", vp);
+                for( ; t < nbth; t++ ) {
+                    parsec_vpmap[vp].threads[t].nbcores = 1;
+                    parsec_vpmap[vp].threads[t].cpuset = HWLOC_ALLOC();
+                    parsec_vpmap[vp].threads[t].ht = -1;
+                }
+                break;
+            }
 
             for (ht=0; ht < nbht ; ht++) {
                 parsec_vpmap[vp].threads[t+ht].nbcores = 1;
